@@ -16,6 +16,14 @@
 // (adding, dropping, reordering, duplicating outputs, short-circuiting the function), interleaved at
 // registration with router-level middlewares: anything that identifies a handler by less than its
 // exact name and registration shows up as a foreign layer in another handler's chain.
+//
+// Output values are unusual-but-legal in half of the cases (empty UUIDs - "UUID can be empty" -, duplicate UUIDs
+// among the outputs of one invocation, the consumed message's UUID, nil / empty payloads, objects built without
+// NewMessage whose metadata map is nil, empty non-nil maps, empty metadata keys and values) and output objects are
+// shared in every way an application can share them: the consumed message itself, one object twice in a result,
+// and a long-lived object that a handler (or all handlers) returns on every call. Objects are identified by
+// pointer, never by UUID; what the outermost stage of the chain returned is compared field by field (incl. the
+// nil-ness of payload and metadata map) with what Publish received, and with the objects once the Router is done.
 package c08
 
 import (
@@ -53,8 +61,15 @@ func init() {
 			"(before / between / after handlers and their handler-level middlewares; all before Run); " +
 			"handlers registered before Run or added later through RunHandlers; one message stream per subscription (0..4 emissions, optional failing first attempt + redelivery), " +
 			"streams driven concurrently (pipelined or settle-before-next) or by one sequential interleaving; output shapes 0..n: fresh objects, the consumed message, one object twice, middleware-appended objects; " +
+			"output values: in 50% of the cases (class suffix /oddvalues) every fresh output draws its UUID from {unique, empty, one UUID shared by several outputs of the invocation, the consumed message's UUID, a case-wide constant}, " +
+			"is built by NewMessage or as a &message.Message{} literal (30%; 60% of those keep a nil Metadata map), carries nil / empty / random payload, metadata with empty keys and empty values, and in 40% no harness key at all (so empty non-nil maps occur); " +
+			"emitted (consumed) messages of those cases have an empty UUID (35%) or all the same UUID (20% of the cases) and the same corner metadata - they are outputs wherever a chain returns the consumed message; " +
+			"long-lived outputs: in 25% of the cases (suffix /longlived) every handler owns one message object created before Run (half of them without UUID, some constructor-less) that its function returns on every call in 60% of the emissions " +
+			"(alone, twice, before/after fresh objects and the consumed message); those cases settle every emission before the next of the stream so that invocations returning one object never overlap; under the sequential drive, when every handler has a publisher and non-empty name/topics, one object may be shared by ALL handlers; " +
+			"output objects are identified by pointer (Publish calls that carry long-lived objects only are attributed by the logical clock: latest chain return of that object before the call began); " +
 			"schedule perturbation at watermill's verifhook points. Per emission the oracle checks: the layers entered are router-level ones and the handling handler's own (none foreign, none twice, none missing unless short-circuited: mw-wrong-handler), " +
-			"every layer received from next() exactly what the stage inside it returned, from the function outwards (chain-link), and the outermost return values reach that handler's publisher/topic unmodified and in order, or cause the no-publisher Nack. " +
+			"every layer received from next() exactly what the stage inside it returned, from the function outwards (chain-link), and the outermost return values reach that handler's publisher/topic unmodified and in order, or cause the no-publisher Nack; unmodified = the same objects whose UUID, payload (bytes and nil-ness) and metadata (entries and nil-ness of the map) " +
+			"at Publish equal the snapshot taken when the outermost stage returned (publish-modified), and which still have that value after Close/Run returned, a long-lived object having its original value at every return (output-object-modified: the Router may set the context of a produced message, nothing else). " +
 			"A case is non-trivial when at least one Publish call or one no-publisher Nack was judged; " +
 			"distinct = distinct (wiring shape incl. name kinds and layer kinds, registration program, output-shape multiset, drive mode, max handler overlap) signatures.",
 		Assumptions: []string{
@@ -65,6 +80,8 @@ func init() {
 			"Ack after a successful Publish is not judged here (only the Nack of the no-publisher clause); an unsettled message that was handled correctly makes the case inconclusive",
 			"the nesting order of the middlewares of one chain is not judged (the statement does not mention it): layers are matched by what they hand to each other, whatever order watermill composes them in",
 			"every middleware is added before the handler it applies to is started (router-level ones before Run): a middleware added to an already running handler is outside the statement",
+			"'unmodified' is read literally for the three public fields of an output (UUID, Payload, Metadata), including nil vs empty payload / metadata map, both at Publish time and after the Router has finished with the message; the scripted publishers and the middlewares of the harness never write to a message, so any difference is the Router's doing. output-object-modified is judged for handlers with a publisher only and only after Close and Run returned",
+			"invocations that return one and the same long-lived object never overlap (the application's obligation: the Router sets the context on produced messages), and an object shared by several handlers is only used where every handler sets all five context values",
 		},
 	})
 }
@@ -194,6 +211,7 @@ type layerRun struct {
 	out      []*message.Message
 	outSnaps []vlib.MsgSnap
 	outErr   bool
+	tDone    uint64 // logical-clock stamp taken after the snapshots, right before the layer returned
 }
 
 // expected context: name, subscribe topic, publish topic, subscriber name, publisher name ("*" = not judged)
@@ -232,7 +250,24 @@ func ctxDiff(got, want [5]string) string {
 type freshSpec struct {
 	payload []byte
 	meta    [][2]string
+	// unusual-but-legal values (drawn in "odd output" cases only; the zero values are the plain object of the
+	// earlier rounds: NewMessage(<eid>/<tok>, payload) + meta + the harness's "vout" key)
+	uuidMode int  // umUnique .. umConst
+	noCtor   bool // built as &message.Message{...}, not by NewMessage (no ack channels)
+	nilMeta  bool // (noCtor) the Metadata map stays nil
+	bare     bool // no "vout" key: the metadata is exactly meta (possibly an empty, non-nil map)
 }
+
+// UUIDs of produced objects. "UUID can be empty" (message.Message godoc); nothing demands uniqueness.
+const (
+	umUnique   = iota // <eid>/<tok>
+	umEmpty           // ""
+	umDup             // <eid>/dup: the same for every such output of the invocation
+	umConsumed        // the consumed message's UUID (whatever that is, possibly empty)
+	umConst           // "x": the same in every invocation of every handler
+)
+
+var umNames = []string{"unique", "empty", "dup", "consumed", "const"}
 
 // emPlan is what happens to one emitted message, whichever handler of its subscription's group gets it.
 type emPlan struct {
@@ -311,6 +346,19 @@ type caseState struct {
 	driveSeq bool
 	ctxOf    map[int]context.Context // handler index -> a message context seen inside that handler
 	staleN   atomic.Int32
+
+	odd bool // odd-output case: unusual UUIDs / payloads / metadata / constructor-less objects among the outputs and the emissions
+	// long-lived objects: statics[h] is returned by handler h's function for every "X" token. Only drawn in cases whose
+	// emissions are all settled before the next one of the same stream is emitted, so that invocations returning one
+	// object never overlap (the Router sets the context on produced messages: overlapping invocations returning one
+	// object would be the application's data race, not the Router's). staticShared: one object for all handlers
+	// (sequential drive only).
+	useStatic    bool
+	staticShared bool
+	statics      []*message.Message
+	staticInit   []vlib.MsgSnap
+	staticIdx    map[*message.Message]int    // long-lived object -> first handler that owns it
+	objOwner     map[*message.Message]string // fresh output objects and emitted messages -> emission id
 }
 
 func eidOf(m *message.Message) string { return m.Metadata.Get("vemit") }
@@ -331,13 +379,52 @@ func (c *caseState) planFor(eid string) (*emPlan, int) {
 	return p, att
 }
 
-func mkFresh(eid, tok string, fs freshSpec) *message.Message {
-	m := message.NewMessage(eid+"/"+tok, fs.payload)
-	for _, kv := range fs.meta {
-		m.Metadata.Set(kv[0], kv[1])
+// mkFresh builds one fresh output object of emission eid. Its identity for the oracle is the pointer
+// (objOwner); the "vout" key is a fall-back for the case that something hands the publisher a copy.
+func (c *caseState) mkFresh(eid, tok string, fs freshSpec, consumed *message.Message) *message.Message {
+	uuid := eid + "/" + tok
+	switch fs.uuidMode {
+	case umEmpty:
+		uuid = ""
+	case umDup:
+		uuid = eid + "/dup"
+	case umConsumed:
+		uuid = consumed.UUID
+	case umConst:
+		uuid = "x"
 	}
-	m.Metadata.Set("vout", eid)
+	var m *message.Message
+	if fs.noCtor {
+		m = &message.Message{UUID: uuid, Payload: fs.payload}
+		if !fs.nilMeta {
+			m.Metadata = message.Metadata{}
+		}
+	} else {
+		m = message.NewMessage(uuid, fs.payload)
+	}
+	if m.Metadata != nil {
+		for _, kv := range fs.meta {
+			m.Metadata.Set(kv[0], kv[1])
+		}
+		if !fs.bare {
+			m.Metadata.Set("vout", eid)
+		}
+	}
+	c.mu.Lock()
+	c.objOwner[m] = eid
+	c.mu.Unlock()
 	return m
+}
+
+// snapMsg is vlib.Snap that keeps the nil-ness of the metadata map (vlib.Snap keeps the payload's in NilPay):
+// a message built without the constructor has a nil map, and handing the publisher an empty one instead is a
+// modification a publisher can observe.
+func snapMsg(m *message.Message) vlib.MsgSnap {
+	s := vlib.Snap(m)
+	if m.Metadata == nil {
+		s.Metadata = nil
+	}
+	return s
 }
 
 // handlerFunc of handler h (HandlerFunc flavour).
@@ -366,7 +453,7 @@ func (c *caseState) invoke(h int, msg *message.Message, canReturn bool) (outs []
 	}
 	defer c.active.Add(-1)
 	eid := eidOf(msg)
-	rec := &invRec{eid: eid, h: h, ctx: readCtx(msg.Context()), snap: vlib.Snap(msg), ptr: msg}
+	rec := &invRec{eid: eid, h: h, ctx: readCtx(msg.Context()), snap: snapMsg(msg), ptr: msg}
 	c.mu.Lock()
 	c.invs = append(c.invs, rec)
 	if c.ctxOf == nil {
@@ -402,9 +489,13 @@ func (c *caseState) invoke(h int, msg *message.Message, canReturn bool) (outs []
 			outs = append(outs, msg)
 			continue
 		}
+		if tok == "X" {
+			outs = append(outs, c.statics[h])
+			continue
+		}
 		o := objs[tok]
 		if o == nil {
-			o = mkFresh(eid, tok, p.fresh[tok])
+			o = c.mkFresh(eid, tok, p.fresh[tok], msg)
 			objs[tok] = o
 		}
 		outs = append(outs, o)
@@ -419,7 +510,7 @@ func snapAll(ms []*message.Message) []vlib.MsgSnap {
 			out = append(out, vlib.MsgSnap{})
 			continue
 		}
-		out = append(out, vlib.Snap(m))
+		out = append(out, snapMsg(m))
 	}
 	return out
 }
@@ -441,7 +532,7 @@ func (c *caseState) layerMW(l *layer) message.HandlerMiddleware {
 			if active && l.kind >= lkShort && p.shortOK {
 				switch l.kind {
 				case lkShort:
-					outs = []*message.Message{mkFresh(eid, fmt.Sprintf("S@L%d", l.id), p.fresh["S"])}
+					outs = []*message.Message{c.mkFresh(eid, fmt.Sprintf("S@L%d", l.id), p.fresh["S"], msg)}
 				case lkShortErr:
 					err = fmt.Errorf("layer %d short-circuits %s with an error", l.id, eid)
 				}
@@ -459,6 +550,7 @@ func (c *caseState) layerMW(l *layer) message.HandlerMiddleware {
 			outSnaps := snapAll(outs)
 			c.mu.Lock()
 			run.done, run.out, run.outSnaps, run.outErr = true, append([]*message.Message(nil), outs...), outSnaps, err != nil
+			run.tDone = vlib.Now()
 			c.mu.Unlock()
 			return outs, err
 		}
@@ -481,7 +573,7 @@ func (c *caseState) transform(l *layer, p *emPlan, eid string, msg *message.Mess
 			default:
 				o := objs[tok]
 				if o == nil {
-					o = mkFresh(eid, fmt.Sprintf("%s@L%d", tok, l.id), p.fresh[tok])
+					o = c.mkFresh(eid, fmt.Sprintf("%s@L%d", tok, l.id), p.fresh[tok], msg)
 					objs[tok] = o
 				}
 				res = append(res, o)
@@ -519,6 +611,45 @@ func randMeta(r *vlib.Rand) [][2]string {
 	}
 	return m
 }
+
+// randMetaOdd: like randMeta plus the legal corner entries - the empty key, empty values, both.
+func randMetaOdd(r *vlib.Rand) [][2]string {
+	var m [][2]string
+	for i, n := 0, r.Intn(4); i < n; i++ {
+		switch r.Intn(5) {
+		case 0:
+			m = append(m, [2]string{"", r.UTF8(6)})
+		case 1:
+			m = append(m, [2]string{"k:" + r.UTF8(4), ""})
+		case 2:
+			m = append(m, [2]string{"", ""})
+		default:
+			m = append(m, [2]string{"k:" + r.UTF8(4), r.UTF8(6)})
+		}
+	}
+	return m
+}
+
+// genFresh draws the value of one fresh output object. Plain cases keep the objects of the earlier rounds; odd
+// cases mix in empty / duplicate / borrowed UUIDs, constructor-less objects (nil metadata map, no ack channels),
+// metadata that is exactly what was drawn (no harness key, possibly an empty non-nil map) and corner metadata entries.
+func genFresh(r *vlib.Rand, odd bool, max int) freshSpec {
+	if !odd {
+		return freshSpec{payload: r.Payload(max), meta: randMeta(r)}
+	}
+	fs := freshSpec{payload: r.Payload(max), meta: randMetaOdd(r)}
+	fs.uuidMode = []int{umUnique, umUnique, umEmpty, umEmpty, umEmpty, umDup, umDup, umConsumed, umConst}[r.Intn(9)]
+	fs.noCtor = r.Chance(0.3)
+	fs.nilMeta = fs.noCtor && r.Chance(0.6)
+	fs.bare = r.Chance(0.4)
+	if r.Chance(0.15) {
+		fs.meta = nil
+	}
+	return fs
+}
+
+// staticShapes: output shapes around the handler's long-lived object ("X").
+var staticShapes = [][]string{{"X"}, {"X"}, {"X", "X"}, {"F0", "X"}, {"X", "C"}, {"C", "X", "F0"}, {"X", "F0", "X"}}
 
 func genOuts(r *vlib.Rand) (fn []string, shape string) {
 	switch r.Intn(10) {
@@ -773,6 +904,11 @@ func (c *caseState) generate() {
 		c.hs = append(c.hs, h)
 	}
 	c.genLayers()
+	c.odd = r.Chance(0.5)
+	c.useStatic = r.Chance(0.25)
+	sameEmUUID := c.odd && r.Chance(0.2) // every emission of the case carries one and the same UUID
+	c.objOwner = map[*message.Message]string{}
+	c.staticIdx = map[*message.Message]int{}
 	// one stream per handler index (assigned to subscriptions later)
 	c.plans = map[string]*emPlan{}
 	total := 0
@@ -798,26 +934,40 @@ func (c *caseState) generate() {
 		var st []*emPlan
 		for j := 0; j < n; j++ {
 			p := &emPlan{stream: i, j: j, uuid: fmt.Sprintf("%s/m%d.%d", id, i, j), payload: r.Payload(16), meta: randMeta(r), fresh: map[string]freshSpec{}}
+			if c.odd {
+				// unusual-but-legal consumed messages (they are outputs wherever a "C" token returns them)
+				p.meta = randMetaOdd(r)
+				switch {
+				case sameEmUUID:
+					p.uuid = id + "/same"
+				case r.Chance(0.35):
+					p.uuid = ""
+				}
+			}
 			p.stale = r.Chance(0.3)
 			var s1, s2 string
 			p.fnOuts, s1 = genOuts(r)
+			if c.useStatic && r.Chance(0.6) {
+				p.fnOuts = staticShapes[r.Intn(len(staticShapes))]
+				s1 = "static:" + strings.Join(p.fnOuts, "")
+			}
 			p.mwOuts, s2 = genMwOuts(r)
 			p.shape = s1 + "/" + s2
 			for _, tok := range append(append([]string{}, p.fnOuts...), p.mwOuts...) {
-				if tok != "C" && tok != "D" {
+				if tok != "C" && tok != "D" && tok != "X" {
 					if _, ok := p.fresh[tok]; !ok {
-						p.fresh[tok] = freshSpec{payload: r.Payload(12), meta: randMeta(r)}
+						p.fresh[tok] = genFresh(r, c.odd, 12)
 					}
 				}
 			}
-			p.fresh["S"] = freshSpec{payload: r.Payload(8), meta: randMeta(r)}
+			p.fresh["S"] = genFresh(r, c.odd, 8)
 			p.mwMask = uint32(r.Uint64())
 			if r.Chance(0.25) {
 				p.mwMask = ^uint32(0) // every layer active
 			}
 			p.shortOK = ownerKnown[i]
 			p.failFirst = r.Chance(0.12)
-			p.wait = r.Chance(0.4)
+			p.wait = r.Chance(0.4) || c.useStatic
 			p.yields = r.Intn(4)
 			st = append(st, p)
 			c.plans[eidFor(p, id, 1)] = p
@@ -826,6 +976,40 @@ func (c *caseState) generate() {
 		c.streams = append(c.streams, st)
 	}
 	c.driveSeq = r.Chance(0.25)
+	if c.useStatic {
+		// the long-lived objects: half of them without UUID, some built without the constructor, none with a harness key
+		mk := func(k int) *message.Message {
+			fs := genFresh(r, true, 12)
+			fs.bare = true
+			fs.uuidMode = umUnique
+			if r.Bool() {
+				fs.uuidMode = umEmpty
+			}
+			return c.mkFresh(id, fmt.Sprintf("static%d", k), fs, nil)
+		}
+		allSet := true
+		for _, h := range c.hs {
+			if h.pubKind != pubReal || h.pubTopic == "" || h.subTopic == "" || h.name == "" {
+				allSet = false
+			}
+		}
+		// one object for all handlers: only under the sequential drive (no two invocations overlap at all) and only where
+		// every handler sets all five context values (watermill leaves a value of an earlier hop untouched when the
+		// handler's own value is empty - the same restriction as for emissions with another hop's context)
+		c.staticShared = c.driveSeq && allSet && nH > 1 && r.Bool()
+		for i := 0; i < nH; i++ {
+			var m *message.Message
+			if c.staticShared && i > 0 {
+				m = c.statics[0]
+			} else {
+				m = mk(i)
+				delete(c.objOwner, m)
+				c.staticIdx[m] = i
+			}
+			c.statics = append(c.statics, m)
+			c.staticInit = append(c.staticInit, snapMsg(m))
+		}
+	}
 }
 
 // ---------------------------------------------------------------------------------------------
@@ -902,9 +1086,10 @@ func (c *caseState) emit(spi int, p *emPlan, attempt int) *emission {
 		}
 		c.mu.Unlock()
 	}
-	em := &emission{eid: eid, plan: p, attempt: attempt, sp: spi, msg: m, snap: vlib.Snap(m)}
+	em := &emission{eid: eid, plan: p, attempt: attempt, sp: spi, msg: m, snap: snapMsg(m)}
 	c.mu.Lock()
 	c.emitted = append(c.emitted, em)
+	c.objOwner[m] = eid
 	c.mu.Unlock()
 	ok := sp.Send(m)
 	c.mu.Lock()
@@ -960,6 +1145,9 @@ func run(e *vlib.Env) vlib.Result {
 				v := readCtx(m.Context())
 				for k := range v {
 					pc.Sampled[fmt.Sprintf("%d.%d", i, k)] = v[k]
+				}
+				if m.Metadata == nil {
+					pc.Sampled[fmt.Sprintf("%d.nilmeta", i)] = "1"
 				}
 			}
 		}
@@ -1163,7 +1351,7 @@ func run(e *vlib.Env) vlib.Result {
 		return c.finish(res, ctl)
 	}
 
-	c.judge(&res, spStream)
+	c.judge(&res, spStream, closeOc == vlib.Done)
 
 	if !res.Failed() {
 		switch {
@@ -1183,7 +1371,7 @@ func run(e *vlib.Env) vlib.Result {
 // ---------------------------------------------------------------------------------------------
 // oracle
 
-func (c *caseState) judge(res *vlib.Result, spStream []int) {
+func (c *caseState) judge(res *vlib.Result, spStream []int, routerDone bool) {
 	c.mu.Lock()
 	defer c.mu.Unlock()
 
@@ -1218,17 +1406,49 @@ func (c *caseState) judge(res *vlib.Result, spStream []int) {
 			nCalls++
 			nMsgs += len(pc.Msgs)
 			res.Events++
+			// the invocation a call belongs to: by the identity of the objects it carries (fresh outputs and consumed
+			// messages belong to one emission; a copy is recognised by the harness key in its metadata, if it has
+			// one); a call that carries long-lived objects only belongs to the latest emission whose chain returned
+			// that object before the call began (invocations returning one long-lived object never overlap)
 			owner := ""
+			var longLived *message.Message
 			for i, s := range pc.Snaps {
-				o := s.Metadata["vout"]
-				if o == "" {
-					o = s.Metadata["vemit"]
+				m := pc.Msgs[i]
+				o, known := c.objOwner[m]
+				if !known {
+					if _, st := c.staticIdx[m]; st {
+						if longLived == nil {
+							longLived = m
+						}
+						continue
+					}
+					o = s.Metadata["vout"]
+					if o == "" {
+						o = s.Metadata["vemit"]
+					}
+					if o == "" {
+						continue
+					}
 				}
-				if i == 0 {
+				if owner == "" {
 					owner = o
 				} else if o != owner {
 					res.Fail("publish-args", "Publish #%d on publisher %d (topic %q) mixes messages of different invocations: %q and %q", pc.No, pi, pc.Topic, owner, o)
 				}
+			}
+			if owner == "" && longLived != nil {
+				var best uint64
+				for eid, runs := range runsBy {
+					if lr := runs[0]; lr.done && !lr.outErr && lr.tDone < pc.Start && lr.tDone > best {
+						for _, m := range lr.out {
+							if m == longLived {
+								owner, best = eid, lr.tDone
+								break
+							}
+						}
+					}
+				}
+				res.Count("publish_calls_attributed_by_long_lived_object", 1)
 			}
 			if len(pc.Msgs) == 0 {
 				res.Fail("spurious-publish", "Publish #%d on publisher %d (topic %q) was called with no messages", pc.No, pi, pc.Topic)
@@ -1248,6 +1468,14 @@ func (c *caseState) judge(res *vlib.Result, spStream []int) {
 	spOwner := map[int]int{}
 	ownerSp := map[int]int{}
 	judgedPub, judgedNack := 0, 0
+	type ownedObj struct {
+		ptr  *message.Message
+		snap vlib.MsgSnap // its value when the outermost stage of the chain returned it
+		em   *emission
+		h    int
+		pos  int
+	}
+	var owned []ownedObj
 	for _, em := range c.emitted {
 		if !em.sent {
 			res.Inconclusive("emission %s was not taken by the Router (subscription ended early)", em.eid)
@@ -1453,7 +1681,11 @@ func (c *caseState) judge(res *vlib.Result, spStream []int) {
 				}
 				for i := range a.call.Msgs {
 					ptrs = append(ptrs, a.call.Msgs[i])
-					snaps = append(snaps, a.call.Snaps[i])
+					ps := a.call.Snaps[i]
+					if a.call.Sampled[fmt.Sprintf("%d.nilmeta", i)] == "1" {
+						ps.Metadata = nil
+					}
+					snaps = append(snaps, ps)
 					var v [5]string
 					for k := range v {
 						v[k] = a.call.Sampled[fmt.Sprintf("%d.%d", i, k)]
@@ -1468,20 +1700,74 @@ func (c *caseState) judge(res *vlib.Result, spStream []int) {
 				res.Fail("publish-args", "handler %d returned %d message(s) %v for %s, Publish got %d %v", h.idx, len(ch.outs), uuids(ch.snaps), em.eid, len(ptrs), uuids(snaps))
 				break
 			}
+			{
+				seenU := map[string]*message.Message{}
+				for i, sn := range ch.snaps {
+					if o, ok := seenU[sn.UUID]; ok && o != ch.outs[i] {
+						res.Count("invocations_with_duplicate_uuids_among_distinct_outputs", 1)
+						break
+					}
+					seenU[sn.UUID] = ch.outs[i]
+				}
+			}
 			for i := range ptrs {
 				if ptrs[i] != ch.outs[i] {
 					res.Fail("publish-args", "handler %d returned %v for %s, Publish got %v: position %d is not the returned object (order or identity changed)", h.idx, uuids(ch.snaps), em.eid, uuids(snaps), i)
 					break
 				}
 				if !snapEq(ch.snaps[i], snaps[i]) {
-					res.Fail("publish-modified", "output %d of handler %d for %s was returned as uuid %q payload %x metadata %v and published as uuid %q payload %x metadata %v", i, h.idx, em.eid, ch.snaps[i].UUID, ch.snaps[i].Payload, ch.snaps[i].Metadata, snaps[i].UUID, snaps[i].Payload, snaps[i].Metadata)
+					res.Fail("publish-modified", "output %d (%s) of handler %d for %s was returned as %s and published as %s", i, c.objKind(ptrs[i], em), h.idx, em.eid, snapStr(ch.snaps[i]), snapStr(snaps[i]))
 					break
 				}
+				res.Count("outputs_compared_field_by_field", 1)
+				c.countOutputValue(res, ptrs[i], em, ch.snaps[i])
+				owned = append(owned, ownedObj{ptrs[i], ch.snaps[i], em, h.idx, i})
 				res.Count("ctx_checks", 1)
 				if d := ctxDiff(ctxs[i], want); d != "" {
 					res.Fail("ctx-on-produced", "output %d (uuid %q) of handler %d (%s) for %s at Publish time: %s (all five: %q)", i, snaps[i].UUID, h.idx, short(h.name), em.eid, d, ctxs[i])
 					break
 				}
+			}
+		}
+	}
+	// clause output-object-modified: "handed, unmodified": the objects a chain returned are the application's (the
+	// consumed message, a long-lived object it returns again and again, fresh objects it may keep); what the Router
+	// may do to them is set the context ("on produced messages the context reports ..."), nothing else. The scripted
+	// publishers and the layers of this harness never write to a message, so once the Router has finished, every
+	// object handed to a publisher must still have the value it was returned with, and a long-lived object must
+	// have its original value at every return. Judged only after Close and Run returned (no Router goroutine left).
+	if routerDone && !res.Failed() {
+		for _, o := range owned {
+			if c.isStatic(o.ptr) {
+				continue
+			}
+			res.Count("output_objects_rechecked_after_close", 1)
+			if cur := snapMsg(o.ptr); !snapEq(cur, o.snap) {
+				res.Fail("output-object-modified", "output %d (%s) of handler %d for %s was returned as %s and is %s after the Router finished (the publisher saw it unmodified)", o.pos, c.objKind(o.ptr, o.em), o.h, o.em.eid, snapStr(o.snap), snapStr(cur))
+				break
+			}
+		}
+		for _, r := range c.invs {
+			if c.statics == nil || !r.returned || r.retErr || c.hs[r.h].pubKind != pubReal {
+				continue
+			}
+			for i, m := range r.ret {
+				if m != c.statics[r.h] {
+					continue
+				}
+				res.Count("long_lived_object_returns_checked", 1)
+				if !snapEq(r.retSnaps[i], c.staticInit[r.h]) {
+					res.Fail("output-object-modified", "the long-lived object handler %d returns on every call was created as %s and is %s when returned for %s: an earlier hand-over to the publisher modified the application's object", r.h, snapStr(c.staticInit[r.h]), snapStr(r.retSnaps[i]), r.eid)
+				}
+				break
+			}
+		}
+		for hi, m := range c.statics {
+			if c.hs[hi].pubKind != pubReal {
+				continue
+			}
+			if cur := snapMsg(m); !snapEq(cur, c.staticInit[hi]) {
+				res.Fail("output-object-modified", "the long-lived object of handler %d was created as %s and is %s after the Router finished", hi, snapStr(c.staticInit[hi]), snapStr(cur))
 			}
 		}
 	}
@@ -1543,8 +1829,12 @@ func uuids(s []vlib.MsgSnap) []string {
 	return out
 }
 
+// snapEq: field by field - UUID, payload bytes and nil-ness, metadata entries and nil-ness of the map.
 func snapEq(a, b vlib.MsgSnap) bool {
 	if a.UUID != b.UUID || string(a.Payload) != string(b.Payload) || len(a.Metadata) != len(b.Metadata) {
+		return false
+	}
+	if a.NilPay != b.NilPay || (a.Metadata == nil) != (b.Metadata == nil) {
 		return false
 	}
 	for k, v := range a.Metadata {
@@ -1553,6 +1843,72 @@ func snapEq(a, b vlib.MsgSnap) bool {
 		}
 	}
 	return true
+}
+
+func snapStr(s vlib.MsgSnap) string {
+	pay := fmt.Sprintf("%x", s.Payload)
+	if s.NilPay {
+		pay = "nil"
+	}
+	meta := fmt.Sprintf("%q", s.Metadata)
+	if s.Metadata == nil {
+		meta = "nil map"
+	}
+	return fmt.Sprintf("{uuid %q payload %s metadata %s}", s.UUID, pay, meta)
+}
+
+// objKind names what an output object is to the handler that returned it.
+func (c *caseState) objKind(m *message.Message, em *emission) string {
+	switch {
+	case m == em.msg:
+		return "the consumed message"
+	case c.isStatic(m):
+		if c.staticShared {
+			return "the long-lived object all handlers return"
+		}
+		return "the handler's long-lived object"
+	}
+	return "fresh object"
+}
+
+func (c *caseState) isStatic(m *message.Message) bool {
+	_, ok := c.staticIdx[m]
+	return ok
+}
+
+// countOutputValue counts the unusual-but-legal values among the outputs that were compared at Publish.
+func (c *caseState) countOutputValue(res *vlib.Result, m *message.Message, em *emission, s vlib.MsgSnap) {
+	if s.UUID == "" {
+		res.Count("published_outputs_with_empty_uuid", 1)
+	}
+	if s.Metadata == nil {
+		res.Count("published_outputs_with_nil_metadata_map", 1)
+	} else if len(s.Metadata) == 0 {
+		res.Count("published_outputs_with_empty_metadata_map", 1)
+	}
+	if _, ok := s.Metadata[""]; ok {
+		res.Count("published_outputs_with_empty_metadata_key", 1)
+	}
+	for k, v := range s.Metadata {
+		if v == "" && k != "" {
+			res.Count("published_outputs_with_empty_metadata_value", 1)
+			break
+		}
+	}
+	if s.NilPay {
+		res.Count("published_outputs_with_nil_payload", 1)
+	} else if len(s.Payload) == 0 {
+		res.Count("published_outputs_with_empty_payload", 1)
+	}
+	switch {
+	case m == em.msg:
+		res.Count("published_outputs_that_are_the_consumed_message", 1)
+		if s.UUID == "" {
+			res.Count("published_consumed_messages_with_empty_uuid", 1)
+		}
+	case c.isStatic(m):
+		res.Count("published_outputs_that_are_a_long_lived_object", 1)
+	}
 }
 
 // finish fills the evidence fields.
@@ -1657,6 +2013,29 @@ func (c *caseState) finish(res vlib.Result, ctl *vlib.Ctl) vlib.Result {
 	if mwChain {
 		res.Class += "/mwchain"
 	}
+	if c.odd {
+		res.Class += "/oddvalues"
+		res.Count("cases_with_odd_output_values", 1)
+		for _, st := range c.streams {
+			for _, p := range st {
+				for _, tok := range append(append([]string{}, p.fnOuts...), p.mwOuts...) {
+					if fs, ok := p.fresh[tok]; ok {
+						res.Count("planned_fresh_outputs_uuid_"+umNames[fs.uuidMode], 1)
+						if fs.noCtor {
+							res.Count("planned_fresh_outputs_built_without_constructor", 1)
+						}
+					}
+				}
+			}
+		}
+	}
+	if c.useStatic {
+		res.Class += "/longlived"
+		res.Count("cases_with_long_lived_output_objects", 1)
+		if c.staticShared {
+			res.Count("cases_with_one_long_lived_object_for_all_handlers", 1)
+		}
+	}
 	var shapes []string
 	for _, em := range c.emitted {
 		s := em.plan.shape
@@ -1674,7 +2053,7 @@ func (c *caseState) finish(res vlib.Result, ctl *vlib.Ctl) vlib.Result {
 	for _, op := range c.rlOps {
 		regProg = append(regProg, fmt.Sprintf("%s%d", []string{"H", "R", "M"}[op[0]], op[1]))
 	}
-	res.Sig = vlib.Sig(strings.Join(wiring, ","), strings.Join(regProg, ","), strings.Join(shapes, ","), drive, c.maxAct.Load())
+	res.Sig = vlib.Sig(strings.Join(wiring, ","), strings.Join(regProg, ","), strings.Join(shapes, ","), drive, c.maxAct.Load(), c.odd, c.useStatic, c.staticShared)
 	res.Hooks = ctl.Counts()
 	res.Count("handlers", len(c.hs))
 	res.Count("max_concurrent_invocations_sum", int(c.maxAct.Load()))
@@ -1724,7 +2103,8 @@ func (c *caseState) finish(res vlib.Result, ctl *vlib.Ctl) vlib.Result {
 	for _, l := range c.layers {
 		layerNames = append(layerNames, l.String())
 	}
-	res.Sample = map[string]any{"handlers": hsample, "layers": layerNames, "registration": regProg, "drive": drive, "emission_shapes": sshapes, "invocations": trace, "publishes": pubs, "max_overlap": c.maxAct.Load()}
+	res.Sample = map[string]any{"handlers": hsample, "layers": layerNames, "registration": regProg, "drive": drive, "emission_shapes": sshapes, "invocations": trace, "publishes": pubs, "max_overlap": c.maxAct.Load(),
+		"odd_output_values": c.odd, "long_lived_outputs": c.useStatic, "long_lived_shared_by_all_handlers": c.staticShared}
 	if res.Failed() && res.Witness == nil {
 		res.Witness = map[string]any{"handlers": hsample, "layers": layerNames, "registration": regProg, "invocations": trace, "publishes": pubs}
 	}
